@@ -675,6 +675,9 @@ func init() {
 			if x.IsConst() {
 				return ConstBV(x.C, 64)
 			}
+			if x.Op == "to_fp_bits" { // Float64bits(Float64frombits(b)) == b (bit-preserving in Go)
+				return x.Args[0]
+			}
 			// fresh bits constrained by to_fp(bits) == x (NaN payloads collapse: stated)
 			b := Var(fmt.Sprintf("f64bits!%d", x.id), BV(64))
 			s.pc = append(s.pc, Or(Eq(mk("to_fp_bits", F64, b), x), And(FpIsNaN(x), Eq(b, ConstU(0x7FF8000000000001, 64)))))
@@ -691,6 +694,9 @@ func init() {
 			x := term(args[0])
 			if x.IsConst() {
 				return ConstBV(x.C, 32)
+			}
+			if x.Op == "to_fp_bits" {
+				return x.Args[0]
 			}
 			b := Var(fmt.Sprintf("f32bits!%d", x.id), BV(32))
 			s.pc = append(s.pc, Or(Eq(mk("to_fp_bits", F32, b), x), And(FpIsNaN(x), Eq(b, ConstU(0x7FC00001, 32)))))
